@@ -144,15 +144,15 @@ var propDocs = map[string]propDoc{
 		Exhaustive:  true,
 	},
 	"C04": {
-		Explanation: "R16: the terms of every success return of Gemm/Scaler/LinearRegressor.Apply (SSA values rendered over gorgonia calls, inputs P1[k] and attribute fields) must equal the ONNX dependency shapes, with A/B = phi(input | Transpose(input)) whose Transpose edge is guarded by its own flag; any other success path is a violation. LinearRegressor.Init reshapes coefficients to (targets, n/targets) and transposes. MatMul: the batch-broadcast loop starts at len-3; R10 its Repeats are guarded by extent==1. R6.T8 float32 admitted; R8 attributes honoured or refused; R3/R21 operands, attribute tensors (which alias protobuf storage) and attribute fields untouched. NOT decided: numeric accuracy, MatMul's vector promotion for every rank combination, gorgonia's MatMul/Transpose.",
+		Explanation: "R16: the terms of every success return of Gemm/Scaler/LinearRegressor.Apply (SSA values rendered over gorgonia calls, inputs P1[k] and attribute fields) must equal the ONNX dependency shapes, with A/B = phi(input | Transpose(input)) whose Transpose edge is guarded by its own flag; any other success path is a violation. LinearRegressor.Init reshapes coefficients to (targets, n/targets) and transposes. MatMul: the batch-broadcast loop starts at len-3; R10 its Repeats are guarded by extent==1. R6.T8 float32 admitted; R8 attributes honoured or refused; R3/R21 operands, attribute tensors (which alias protobuf storage) and every receiver field untouched by Apply (gorgonia's Dot is contracted as transposing its second operand's header in place for vector x matrix). R24: a default replaces optional input k only on the edge where inputs[k] is nil. NOT decided: numeric accuracy, MatMul's vector promotion for every rank combination, gorgonia's MatMul/Transpose.",
 		Assumptions: contractBase,
 	},
 	"C05": {
-		Explanation: "R11 on Conv's methods. K1: every IndexAddr whose list has a known kind (FULL = Shape()/coords/make(len(FULL)), SPATIAL = strides/dilations/kernelShape/FULL[2:]/variadic coords, PADS = pads/make(2*spatial)) is classified by its index kind (CONST, NONSPATIAL = loop < 2, SPATIAL = loop < spatial count / range over a SPATIAL list, SPATIAL+2, SPATIAL+nSpatial, FULL-RANGE, PADS-RANGE) against a legality matrix. K2: per sliding-window function and spatial axis k: window start phi from 0 step strides[k] bounded by Shape(padded)[2+k]; output index start/strides[k] compared with outputShape[2+k] and stored at SetAt position 2+k. K3: batch index = window sample = SetAt position 0 over x.Shape()[0]; kernel[m:m+1] stored at position 1. K4: all AutoPadSetting constants are compared against in Apply's closure (at most one else-class) and Init rejects other strings. R8 attributes; R3 bias not modified; R21 Apply works on a copy of the operator. NOT decided: the multiply-accumulate, dilation zero insertion, padding by Concat.",
+		Explanation: "R11 on Conv's methods. K1: every IndexAddr whose list has a known kind (FULL = Shape()/coords/make(len(FULL)), SPATIAL = strides/dilations/kernelShape/FULL[2:]/variadic coords, PADS = pads/make(2*spatial)) is classified by its index kind (CONST, NONSPATIAL = loop < 2, SPATIAL = loop < spatial count / range over a SPATIAL list, SPATIAL+2, SPATIAL+nSpatial, FULL-RANGE, PADS-RANGE) against a legality matrix. K2: per sliding-window function and spatial axis k: window start phi from 0 step strides[k] bounded by Shape(padded)[2+k]; output index start/strides[k] compared with outputShape[2+k] and stored at SetAt position 2+k. K3: batch index = window sample = SetAt position 0 over x.Shape()[0]; kernel[m:m+1] stored at position 1. K4: all AutoPadSetting constants are compared against in Apply's closure (at most one else-class) and Init rejects other strings. K6: every method reading the kernel's Shape() to size paddings/outputs receives the dilated kernel (the dilation call dominates it). R24: the bias default only replaces an absent bias. R8 attributes; R3 bias and kernel not modified; R21 Apply works on a copy of the operator. NOT decided: the multiply-accumulate, dilation zero insertion, padding by Concat.",
 		Assumptions: contractBase,
 	},
 	"C06": {
-		Explanation: "R12 per operator (RNN 1 gate, GRU 3, LSTM 4): P1 block extractors request (gates,3)/(2*gates,2)/(3,2) blocks and return block k as result k; P3 at every gate call the callee's parameter roles are derived from how it feeds its two Gemm helpers (input Gemm = the one receiving the time slice), then W and R must be the same block k of inputs[1]/inputs[2] and the biases the unordered pair {B[k],B[k+gates]} of inputs[3] (or its zero default), every slot used exactly once; P4 LSTM cell update/peepholes/activation roles, GRU state update term (1-z)(.)h + z(.)H_prev, reset-gate forms under linear_before_reset, Gemm helper literals {transB, alpha=beta=1}; P5 loop-carried state appended per step, Y_h/Y_c are Clone()s of the final phi and distinct objects; P2 initial states phi(inputs[5|6], zeros(1,batch,hidden)); P6 reshape argument terms; P7 X.Slice([t,t+1), nil, nil). R8 every handled attribute refused or stored in a field that is read; R9c activations[k] under a rejecting length check; R18, R10, R3, R21, R6.T8. NOT decided: arithmetic of a step, float64 support, numeric whole-vs-split agreement.",
+		Explanation: "R12 per operator (RNN 1 gate, GRU 3, LSTM 4): P1 block extractors request (gates,3)/(2*gates,2)/(3,2) blocks and return block k as result k; P3 at every gate call the callee's parameter roles are derived from how it feeds its two Gemm helpers (input Gemm = the one receiving the time slice), then W and R must be the same block k of inputs[1]/inputs[2] and the biases the unordered pair {B[k],B[k+gates]} of inputs[3] (or its zero default), every slot used exactly once; P4 LSTM cell update/peepholes/activation roles, GRU state update term (1-z)(.)h + z(.)H_prev, reset-gate forms under linear_before_reset, Gemm helper literals {transB, alpha=beta=1}; P5 loop-carried state appended per step, Y_h/Y_c are Clone()s of the final phi and distinct objects; P2 initial states phi(inputs[5|6], zeros(1,batch,hidden)); P6 reshape argument terms; P7 X.Slice([t,t+1), nil, nil). R8 every handled attribute refused or stored in a field that is read; R9c activations[k] under a rejecting length check; R24: each optional input k (sequence_lens aside) is replaced by its default only on the edge inputs[k]==nil, independently per input. R18, R10, R3, R21, R6.T8. NOT decided: arithmetic of a step, float64 support, numeric whole-vs-split agreement.",
 		Assumptions: contractBase,
 	},
 	"C10": {
@@ -161,24 +161,24 @@ var propDocs = map[string]propDoc{
 		Exhaustive:  true,
 	},
 	"C11": {
-		Explanation: "R14 (AST + go/types, exhaustive): target switch: 10 numeric codes -> createNewBacking[B, Go(code)], 7 non-numeric codes and default -> error; source switch: 10 dtype cases assert []Go(dtype), default -> error, result WithShape(t.Shape()...); element converter out[i] = R(in[i]); alias-flow: every converter instantiation reachable from Cast.Apply is applied to the asserted backing itself; R20: the scalar wrapper covers every source type Cast's gate admits. Constant: name->getter->type table (value_float GetF float32, value_floats []float32, value_int int64, value_ints []int64, value TensorProto), refusals, one attribute exactly. ConstantOfShape: float32(0) default, Len()!=1 refused, non-positive extents refused, dtype from the value tensor. R8, R21. NOT decided: nothing structural; conversion semantics are Go's.",
+		Explanation: "R14 (AST + go/types, exhaustive): target switch: 10 numeric codes -> createNewBacking[B, Go(code)], 7 non-numeric codes and default -> error; source switch: 10 dtype cases assert []Go(dtype), default -> error, result WithShape(t.Shape()...); element converter out[i] = R(in[i]); alias-flow: every converter instantiation reachable from Cast.Apply is applied to the asserted backing itself; R20: the scalar wrapper covers every source type Cast's gate admits. Constant: name->getter->type table (value_float GetF float32, value_floats []float32, value_int int64, value_ints []int64, value TensorProto), refusals, one attribute exactly. ConstantOfShape: float32(0) default, Len()!=1 refused, non-positive extents refused, dtype from the value tensor. R8; R21 Apply stores into no receiver field (no memoised result); R22 no lax Shape.Eq. NOT decided: nothing structural; conversion semantics are Go's.",
 		Assumptions: []string{"go/types models the program faithfully", "Go's numeric conversions are the C-style conversions the property names (language specification)"},
 		Exhaustive:  true,
 	},
 	"C16": {
-		Explanation: "NOT decided: the property itself (numeric equality of batched and per-sample evaluation) - no static argument in reach bounds it. Decided are structural necessary conditions: R11.K2/K3 Conv's window sample index is the SetAt sample index over x.Shape()[0]; R12.P6 recurrent outputs are reshaped with X.Shape()[0], X.Shape()[1]; R12.P7 the per-step slice cuts axis 0 only; R10 every tensor.Repeat reachable from Conv/Gemm/MatMul/RNN/GRU/LSTM is guarded by extent==1; R21 Apply does not store input-derived state in the operator.",
+		Explanation: "NOT decided: the property itself (numeric equality of batched and per-sample evaluation) - no static argument in reach bounds it. Decided are structural necessary conditions: R11.K2/K3 Conv's window sample index is the SetAt sample index over x.Shape()[0]; R12.P6 recurrent outputs are reshaped with X.Shape()[0], X.Shape()[1]; R12.P7 the per-step slice cuts axis 0 only; R10 every tensor.Repeat reachable from Conv/Gemm/MatMul/RNN/GRU/LSTM is guarded by extent==1; R21 Apply does not store input-derived state in the operator; R7t Transpose.Apply returns tensor.Transpose(input, perm...) on every success path (no shape-dependent shortcut).",
 		Assumptions: contractBase,
 	},
 	"C07": {
-		Explanation: "R9 (forward taint from the frozen axis-source table: Flatten.axis, Squeeze inputs[1], Unsqueeze inputs[1]): R9a every Go-level use (index, slice bound, selection against a dimension index) of the user value is dominated by a rejecting lower AND upper bound on a value of the same taint set - at the use, at every call site passing the tainted value, on the tainted edges of a merge, or on the err==nil edge of a library callee that validates on every success return; ops.AllInRange-style checkers count two-sided unless a bound is an extreme constant. R9b the value used derives from `x + rank` computed under `x < 0`. R9c axis sets are sorted and a duplicate returns an error. R3 (E2) clone-before-Reshape: no Reshape on borrowed storage in the five operators. R20 a Data() value asserted to a slice type passes the scalar wrapper first. NOT decided: gorgonia's Reshape contract (row-major order kept, count mismatch rejected), processShape's -1 arithmetic.",
+		Explanation: "R9 (forward taint from the frozen axis-source table: Flatten.axis, Squeeze inputs[1], Unsqueeze inputs[1]): R9a every Go-level use (index, slice bound, selection against a dimension index) of the user value is dominated by a rejecting lower AND upper bound on a value of the same taint set - at the use, at every call site passing the tainted value, on the tainted edges of a merge, or on the err==nil edge of a library callee that validates on every success return; ops.AllInRange-style checkers count two-sided unless a bound is an extreme constant. R9b the value used derives from `x + r` computed under `x < 0`, where r is derived (through parameters, closures and cells) from len(Shape()), Dims() or Shape()[k] of a tensor. R9c axis sets are sorted and a duplicate returns an error. R3 (E2) clone-before-Reshape: no Reshape on borrowed storage in the five operators. R20 a Data() value asserted to a slice type passes the scalar wrapper first. NOT decided: gorgonia's Reshape contract (row-major order kept, count mismatch rejected), processShape's -1 arithmetic.",
 		Assumptions: contractBase,
 	},
 	"C08": {
-		Explanation: "R9a/R9b as for C07 over the sources Concat.axis, Gather.axis, Gather inputs[1] (index data), Slice inputs[3], Transpose.perm (perm is exempt from R9b: no negative spelling), with axis contracts for gorgonia callees (Concat validates both sides, Transpose validates permutations, Slice/At validate ranges; a validating callee only counts when its error is handled). R10 every tensor.Repeat reachable from Expand.Apply is dominated by extent==1 of the repeated tensor at the repeated axis. R19 the view returned by Tensor.Slice is reshaped before Slice.Apply returns it. R20 Data() passes the scalar wrapper before slice assertions. R3 operands not modified. NOT decided: ONNX index formulas, clamping, negative steps, data movement inside gorgonia.",
+		Explanation: "R9a/R9b as for C07 over the sources Concat.axis, Gather.axis, Gather inputs[1] (index data), Slice inputs[3], Transpose.perm (perm is exempt from R9b: no negative spelling), with axis contracts for gorgonia callees (Concat validates both sides, Transpose validates permutations, Slice/At validate ranges; a validating callee only counts when its error is handled). R10 every tensor.Repeat reachable from Expand.Apply is dominated by extent==1 of the repeated tensor at the repeated axis. R19 the view returned by Tensor.Slice is reshaped before Slice.Apply returns it. R20 Data() passes the scalar wrapper before slice assertions. R3 operands not modified. R7t Transpose.Apply returns tensor.Transpose(input, perm...) on every success path. NOT decided: ONNX index formulas, clamping, negative steps, data movement inside gorgonia.",
 		Assumptions: contractBase,
 	},
 	"C09": {
-		Explanation: "R9b over ArgMax.axis, ReduceMax.axes, ReduceMin.axes, Softmax.axis, LogSoftmax.axis with per-callee contracts (SoftMax/LogSoftMax resolve negative axes themselves; Argmax/Max/Min do not and treat -1 as all axes); R9a instances are notes. R20: the Reshape re-inserting reduced axes is control-dependent on the keepdims field (how the int64 attribute becomes the bool is not pinned); ArgMax's result backing is []int64; Data() of the reduced result passes the scalar wrapper. R3 operands not modified. NOT decided: softmax numerics, ties/NaN in ArgMax, 'all axes when none given'.",
+		Explanation: "R9b over ArgMax.axis, ReduceMax.axes, ReduceMin.axes, Softmax.axis, LogSoftmax.axis with per-callee contracts (SoftMax/LogSoftMax resolve negative axes themselves; Argmax/Max/Min do not and treat -1 as all axes); R9a instances are notes. R20: the Reshape re-inserting reduced axes is control-dependent on the keepdims field (how the int64 attribute becomes the bool is not pinned); ArgMax's result backing is []int64; Data() of the reduced result passes the scalar wrapper. R3 operands not modified. R7t Softmax/LogSoftmax.Apply return the single gorgonia call on (input, normalised axis) on every success path. NOT decided: softmax numerics (gorgonia's SoftMax is not max-shifted and yields NaN for very large inputs - trusted base), ties/NaN in ArgMax, 'all axes when none given'.",
 		Assumptions: contractBase,
 	},
 	"C14": {
@@ -195,7 +195,7 @@ var propDocs = map[string]propDoc{
 		Exhaustive:  true,
 	},
 	"C13": {
-		Explanation: "Rules on the shape validator's SSA/CFG (validator found by role): V1 iterates the declared input shapes; V2 back edges of the input loop only from the initializer-skip edge or the exhausted dimension loop, back edges of the dimension loop only from IsDynamic==true or equality edges, comparison only on the !IsDynamic edge; V3 comma-ok miss => error; V4 rejecting rank equality dominates every read of the received shape; V5 declared[i].Size vs int64(received[i]) at the same i over a full range loop, inequality => error; M1 validator is Run's first call on Run's own parameter, error returned, all other blocks on its nil edge; R3 (E2) no mutation site reachable from the validator writes borrowed or shared storage; V7 IsDynamic <=> dim_value == 0 and Size = dim_value in the shape extractor; V8 InputShapes, InputDimSize and the validator all derive shapes from GetInput().",
+		Explanation: "Rules on the shape validator's SSA/CFG (validator found by role): V1 iterates the declared input shapes; V2 back edges of the input loop only from the initializer-skip edge or the exhausted dimension loop, back edges of the dimension loop only from IsDynamic==true or equality edges, comparison only on the !IsDynamic edge; V3 comma-ok miss => error; V4 rejecting rank equality dominates every read of the received shape; V5 declared[i].Size vs int64(received[i]) at the same i over a full range loop, inequality => error; M1 validator is Run's first call on Run's own parameter, error returned, all other blocks on its nil edge; R3 (E2) no mutation site reachable from the validator writes borrowed or shared storage; V7 IsDynamic <=> dim_value == 0 and Size = dim_value in the shape extractor; V8 InputShapes, InputDimSize and the validator all derive shapes from GetInput(). R3w: the map of initializers the validator consults is written only while the Model is constructed (a Run that stored into it would make later Runs skip validation for those names); R22 no lax Shape.Eq.",
 		Assumptions: append([]string{"inputs declared without shape information are outside the property's quantifier"}, contractBase...),
 	},
 	"C18": {
